@@ -292,6 +292,8 @@ func errClass(err error) string {
 		return "panic-other"
 	case strings.HasPrefix(m, "import error: module") && strings.Contains(m, "not found"):
 		return "notfound"
+	case strings.HasPrefix(m, "import error: import cycle detected"):
+		return "cycle"
 	case strings.HasPrefix(m, "import error: cannot import name"):
 		return "cannotimport"
 	case strings.Contains(m, "boom"):
